@@ -202,6 +202,9 @@ pub fn generate(seed: u64, thorough: bool) -> Scenario {
     }
     let p_spur = *rng.pick(&[0, 0, 150]);
     scn.picks = random_picks(&mut rng, 120, ntasks, p_spur, 80);
+    if rng.chance(1, 4) {
+        crate::c05::random_priorities(&mut rng, ntasks, &mut scn.exec);
+    }
     scn.exec.fresh_waker = rng.chance(1, 5);
     scn.exec.max_steps = if big { 20_000 + 40 * mine.len() as u32 * 4 } else { 1500 };
     if big {
